@@ -405,6 +405,10 @@ class FunctionNormalizer:
             if chain_case:
                 return True
             path = _path_to(node, u) or []
+            # the value of `a if c else t` / `(t)` flows on: judge the use by what consumes the enclosing conditional
+            while len(path) >= 2 and isinstance(path[-2], ast.IfExp) and path[-2].test is not path[-1]:
+                path = path[:-1]
+                u = path[-1]
             if len(path) < 2:
                 return False
             par = path[-2]
@@ -1507,6 +1511,51 @@ class Normalizer:
             self.stats["helper_sites_inlined"] += tr.count
         return changed
 
+    def _hoist_helper_call(self, st: ast.stmt, fn) -> Optional[List[ast.stmt]]:
+        """`S(… helper(a) …)` with a statement-bodied helper → `tmp = helper(a); S(… tmp …)` when nothing with an effect is
+        evaluated before the call within S (the next round inlines the helper at `tmp = …`)."""
+        if not isinstance(st, (ast.Expr, ast.Assign, ast.Return, ast.AugAssign)):
+            return None
+        root = st.value if not isinstance(st, ast.Expr) else st.value
+        if root is None:
+            return None
+        for c in ast.walk(root):
+            if not isinstance(c, ast.Call) or c is root:
+                continue
+            h = self._helper_for_call(c)
+            if h is None:
+                continue
+            fi, _recv = h
+            _doc, hb = _docstring_split(self.helper_nodes[fi.node.name].body)
+            if len(hb) == 1 and isinstance(hb[0], ast.Return):
+                continue   # expression-bodied: _ExprInliner's business
+            path = _path_to(st, c) or []
+            ok = bool(path)
+            for parent, child in zip(path, path[1:]):
+                if isinstance(parent, (ast.Lambda, ast.GeneratorExp, ast.ListComp, ast.SetComp, ast.DictComp, ast.IfExp, ast.BoolOp)):
+                    ok = False
+                for sib in _evaluated_before(parent, child):
+                    if any(isinstance(n, (ast.Call, ast.Await, ast.Yield, ast.YieldFrom, ast.NamedExpr)) and not (
+                            isinstance(n, ast.Call) and isinstance(n.func, ast.Name) and n.func.id in _PURE_BUILTINS) for n in ast.walk(sib)):
+                        ok = False
+            if not ok:
+                continue
+            names = {n.id for n in ast.walk(fn) if isinstance(n, ast.Name)}
+            base = "result__" + fi.node.name.strip("_")
+            tmp, k = base, 1
+            while tmp in names:
+                k += 1
+                tmp = f"{base}_{k}"
+            new_st = copy.deepcopy(st)
+            path2 = _path_to(st, c)
+            # replace the call in the copy at the same position
+            idx = [i for i, n in enumerate(ast.walk(st)) if n is c][0]
+            target = list(ast.walk(new_st))[idx]
+            _ReplaceNode(target, _loc(ast.Name(id=tmp, ctx=ast.Load()), c)).visit(new_st)
+            first = _loc(ast.Assign(targets=[ast.Name(id=tmp, ctx=ast.Store())], value=copy.deepcopy(c)), st)
+            return [ast.fix_missing_locations(first), ast.fix_missing_locations(new_st)]
+        return None
+
     def _site_tag(self, fi, fn) -> str:
         """Suffix for the locals of one inlined copy of a helper: the helper's name, numbered from the second copy in the same
         function on (two copies must not share their temporaries)."""
@@ -1566,11 +1615,9 @@ class Normalizer:
             call, mode = st.value, "return"
         elif isinstance(st, ast.Assign) and isinstance(st.value, ast.Call):
             call, mode = st.value, "assign"
-        if call is None:
-            return None
-        h = self._helper_for_call(call)
+        h = self._helper_for_call(call) if call is not None else None
         if h is None:
-            return None
+            return self._hoist_helper_call(st, fn)
         fi, recv = h
         doc, hb = _docstring_split(copy.deepcopy(self.helper_nodes[fi.node.name].body))
         if not hb:
